@@ -10,7 +10,7 @@ RULE = ("two-layer trees (40 % with drop-ins that are symbolic links to differen
         "merging the history (model, theorem read_dirs_is_history_merge) gives the result; distinct by scenario")
 
 def gen(rng, tier):
-    n = 1200 if tier == "quick" else 15000
+    n = 1200 if tier == "quick" else 40000
     out = []
     for _ in range(n):
         name = rng.choice([b"foo", b"bar"]); sfx = rng.choice([b"conf", b".conf", None, b""])
